@@ -5,6 +5,7 @@ real code vs model replay. Oracle: the created file is strictly validated and de
 specification; it must equal the meaning of the raw samples (alpha-equivalent with --alpha); attached
 chunks must obey the policy; inconsistent tuples must be rejected with an error."""
 import os
+import zlib
 
 import chunkgen
 import e2e
@@ -30,7 +31,14 @@ def run(rep):
         ct, depth = pg.LEGAL[k % 15]
         w, h = imggen.pick_dims(rng)
         cls = rng.choice(imggen.CLASSES)
-        if ct in (4, 6) and k % 4 == 1:
+        if ct in (2, 6) and depth == 8 and k % 3 == 0:
+            cls = "gray"             # r = g = b everywhere: convertible to grayscale unless colour-space metadata forbids it
+        bloated = k % 25 == 5
+        if bloated:
+            # an attached profile that the pre-processing cannot read back (it inflates beyond the guessed buffer) still pins the
+            # colour type: an r = g = b truecolour image must stay truecolour and keep the profile
+            ct, depth, cls = rng.choice([(2, 8), (6, 8)]) + ("gray",)
+        if ct in (4, 6) and k % 4 == 1 and not bloated:
             cls = "nearalpha"        # alpha one byte away from opaque / transparent (0xFFxx, 0x00xx, 254, 1)
         tok, _ = imggen.gen(rng, ct, depth, w, h, False, cls, rng.choice(["none", "used", "unused"]))
         w_, h_, ct_, d_, il_, extra, data = pg.parse_img_token(tok)
@@ -61,10 +69,21 @@ def run(rep):
                 extras.append(f"{nm.hex()}:{pl.hex() or '-'}")
                 names.append((nm, pl))
         icc = None
-        if rng.random() < 0.2:
+        if bloated:
+            o = rng.choice(["-", "preset=2", "preset=3", "strip=none"])
+            icc = chunkgen.icc_profile(rng, "other", bloated=True)
+            extras = [x for x in extras if not x.startswith(b"sRGB".hex())]
+            names = [x for x in names if x[0] != b"sRGB"]
+            extras.append("icc:" + icc.hex())
+        elif rng.random() < 0.2:
             icc = chunkgen.icc_profile(rng, rng.choice(["srgb", "other"]))
             extras.append("icc:" + icc.hex())
         cs.add(f"rawlog {o} {tok2} {' '.join(extras)}".strip(), tok=tok2, opts=o, bad=bad, names=names, icc=icc, depth=d_, ct=ct_)
+    # dimensions whose byte size does not fit 64 bits (or 32): rejected as a wrong data length, never a panic or a wrap-around
+    for (w_, h_, ct_, d_) in ((1 << 30, 1 << 31, 6, 16), (0xffffffff, 0xffffffff, 6, 16), (1 << 31, 1 << 31, 2, 8), (0xffffffff, 2, 0, 1),
+                              (1 << 29, 1 << 32 - 1, 6, 16), (65536, 65536, 6, 16), (1 << 31, 1, 0, 8)):
+        tok2 = pg.img_token(w_, h_, ct_, d_, False, None, b"")
+        cs.add(f"rawlog - {tok2}", tok=tok2, opts="-", bad="datalen", names=[], icc=None, depth=d_, ct=ct_)
     ri = vlib.run_cases(impl, cs.lines)
     mlines = []
     res = {}
@@ -115,6 +134,17 @@ def run(rep):
         pol = opts.get("strip", "none")
         keep = c07.keep_fn(pol, safe)
         outnames = [(n_, d_) for n_, d_ in chunks if n_ not in c07.CRITICAL]
+        if m["icc"] is not None and keep(b"iCCP") and not any(n_ in (b"iCCP", b"sRGB") for n_, d_ in outnames):
+            rep.violation("C11:attached-profile-lost", f"the attached ICC profile ({len(m['icc'])} bytes) is kept by policy {pol} but the file carries neither iCCP nor sRGB",
+                          {"cases": [m["cmd"]]})
+        for n_, d_ in outnames:
+            if n_ == b"iCCP" and m["icc"] is not None:
+                try:
+                    prof = zlib.decompress(d_[d_.index(b"\0") + 2:])
+                except Exception:
+                    prof = None
+                if prof != m["icc"]:
+                    rep.violation("C11:attached-profile-changed", "the iCCP chunk of the created file does not inflate to the attached profile", {"cases": [m["cmd"]]})
         for nm, pl in m["names"]:
             present = (nm, pl) in outnames
             if keep(nm) and not present and nm != b"sRGB":
